@@ -152,3 +152,59 @@ Example C07_sphere_instance : forall c R0, lip3 (fun p => dist3 p c - R0).
 Proof. exact sphere_lip3. Qed.
 Example C07_circle_instance : forall c R0, lip2 (fun p => dist2 p c - R0).
 Proof. exact circle_lip2. Qed.
+
+(* ---------------------------------------------------------------- syntactic tie to the Go source
+   Generated/RenderExpr.v is re-translated from the Go AST of the current source tree on every run
+   (harness/rendergen); Render/GenEqRender.v and Render/GenEqMC.v prove the generated definitions equal to the model the
+   theorems above are about, for all arguments over an arbitrary Ops (all of them: Props/TRANSLR.v).
+   Each theorem below breaks when the Go function it is named after changes what it computes. *)
+From Coq Require Import ZArith List.
+Import ListNotations.
+From Sdfx Require Num.Ops Geo.Vec Geo.Box Render.Interp Render.Octree Render.Sample Render.Lattice Render.MS Generated.RenderExpr Render.GenEqRender Render.GenEqMC.
+Import Num.Ops Geo.Vec.
+
+Theorem C07_TRANSL_dcache3_isEmpty : forall (O : Ops) (origin : V3 O) (res : T O) (fv : Lattice.pt -> T O) (n m : nat) (v : Lattice.pt),
+    (S m < n)%nat ->
+    RenderExpr.rg_render_dcache3_isEmpty (Octree.hdiag3_table res n) (fun vi => (Octree.oct_point origin res vi, fv vi)) v (Z.of_nat (S m)) =
+    Octree.oct_empty res fv m v.
+Proof. exact (@GenEqRender.dcache3_isEmpty_eq). Qed.
+Print Assumptions C07_TRANSL_dcache3_isEmpty.
+
+Theorem C07_TRANSL_dcache2_isEmpty : forall (O : Ops) (origin : V2 O) (res : T O) (fv : MS.pt2 -> T O) (n m : nat) (v : MS.pt2),
+    (S m < n)%nat ->
+    RenderExpr.rg_render_dcache2_isEmpty (Octree.hdiag2_table res n) (fun vi => (Octree.quad_point origin res vi, fv vi)) v (Z.of_nat (S m)) =
+    Octree.quad_empty res fv m v.
+Proof. exact (@GenEqRender.dcache2_isEmpty_eq). Qed.
+Print Assumptions C07_TRANSL_dcache2_isEmpty.
+
+Theorem C07_TRANSL_newDcache3 : forall (O : Ops) (origin : V3 O) (res : T O) (n : nat),
+    RenderExpr.rg_render_newDcache3 origin res (Z.of_nat n) = (origin, res, Octree.hdiag3_table res n).
+Proof. exact (@GenEqRender.newDcache3_eq). Qed.
+Print Assumptions C07_TRANSL_newDcache3.
+
+Theorem C07_TRANSL_newDcache2 : forall (O : Ops) (origin : V2 O) (res : T O) (n : nat),
+    RenderExpr.rg_render_newDcache2 origin res (Z.of_nat n) = (origin, res, Octree.hdiag2_table res n).
+Proof. exact (@GenEqRender.newDcache2_eq). Qed.
+Print Assumptions C07_TRANSL_newDcache2.
+
+Theorem C07_TRANSL_dcache3_point_prefix : forall (O : Ops) (origin : V3 O) (res : T O) (vi : Lattice.pt),
+    RenderExpr.rg_render_dcache3_evaluate origin res vi = Octree.oct_point origin res vi.
+Proof. exact (@GenEqRender.dcache3_point_eq). Qed.
+Print Assumptions C07_TRANSL_dcache3_point_prefix.
+
+Theorem C07_TRANSL_dcache2_point_prefix : forall (O : Ops) (origin : V2 O) (res : T O) (vi : MS.pt2),
+    RenderExpr.rg_render_dcache2_evaluate origin res vi = Octree.quad_point origin res vi.
+Proof. exact (@GenEqRender.dcache2_point_eq). Qed.
+Print Assumptions C07_TRANSL_dcache2_point_prefix.
+
+Theorem C07_TRANSL_mcToTriangles : forall (O : Ops) (p0 p1 p2 p3 p4 p5 p6 p7 : V3 O) (v0 v1 v2 v3 v4 v5 v6 v7 x : T O),
+    RenderExpr.rg_render_mcToTriangles [p0; p1; p2; p3; p4; p5; p6; p7] [v0; v1; v2; v3; v4; v5; v6; v7] x =
+    Interp.mc_to_triangles (Octree.sel8 p0 p1 p2 p3 p4 p5 p6 p7) (Octree.sel8 v0 v1 v2 v3 v4 v5 v6 v7) x.
+Proof. exact (@GenEqMC.mcToTriangles_eq). Qed.
+Print Assumptions C07_TRANSL_mcToTriangles.
+
+Theorem C07_TRANSL_msToLines : forall (O : Ops) (p0 p1 p2 p3 : V2 O) (v0 v1 v2 v3 x : T O),
+    RenderExpr.rg_render_msToLines [p0; p1; p2; p3] [v0; v1; v2; v3] x =
+    Interp.ms_to_lines (Octree.sel4 p0 p1 p2 p3) (Octree.sel4 v0 v1 v2 v3) x.
+Proof. exact (@GenEqRender.msToLines_eq). Qed.
+Print Assumptions C07_TRANSL_msToLines.
